@@ -181,6 +181,12 @@ func ReplayMain(args []string) int {
 	applyProc(w, race)
 	env := &Env{Tier: "quick", Seed: 1, KF: kf, Race: race, Replay: true}
 	env.Journal = func(int, int) {}
+	if jp := os.Getenv("VERIF_REPLAY_JOURNAL"); jp != "" {
+		// heartbeat for the parent's CPU bound (one byte per journalled step)
+		if jf, err := os.OpenFile(jp, os.O_CREATE|os.O_WRONLY|os.O_APPEND, 0o644); err == nil {
+			env.Journal = func(int, int) { jf.Write([]byte{'.'}) }
+		}
+	}
 	res := w.Run(c, env)
 	out, _ := json.Marshal(res)
 	fmt.Println("REPLAY-RESULT " + string(out))
@@ -312,10 +318,14 @@ func (r *Runner) runShard(filter string, shard, nsh int, cases map[int]Case, agg
 	if po, ok := r.W.(ProcOpts); ok && po.ProcOpts().StallSec > 0 {
 		stall = po.ProcOpts().StallSec
 	}
+	stallCPU := 0.0
+	if po, ok := r.W.(ProcOpts); ok {
+		stallCPU = po.ProcOpts().StallCPU
+	}
 	rIdx, rSub := 0, 0
 	journal := filepath.Join(r.workDir, fmt.Sprintf("journal.%s.%d", filter, shard))
 	outPath := filepath.Join(r.workDir, fmt.Sprintf("out.%s.%d", filter, shard))
-	restarts, fatals, stalls := 0, 0, 0
+	restarts, fatals, stalls, noReturn := 0, 0, 0, 0
 	for {
 		stderrPath := filepath.Join(r.workDir, fmt.Sprintf("stderr.%s.%d.%d", filter, shard, restarts))
 		ef, _ := os.Create(stderrPath)
@@ -333,8 +343,10 @@ func (r *Runner) runShard(filter string, shard, nsh int, cases map[int]Case, agg
 		done := make(chan error, 1)
 		go func() { done <- cmd.Wait() }()
 		stalled := false
+		spinning := 0.0 // CPU-seconds the worker burned inside the journal entry it never left
 		var lastSize int64 = -1
 		lastChange := time.Now()
+		cpuAtChange := procCPU(cmd.Process.Pid)
 		var werr error
 	wait:
 		for {
@@ -352,8 +364,10 @@ func (r *Runner) runShard(filter string, shard, nsh int, cases map[int]Case, agg
 				if sz != lastSize {
 					lastSize = sz
 					lastChange = time.Now()
-				} else if time.Since(lastChange) > time.Duration(stall)*time.Second {
+					cpuAtChange = procCPU(cmd.Process.Pid)
+				} else if spin := procCPU(cmd.Process.Pid) - cpuAtChange; time.Since(lastChange) > time.Duration(stall)*time.Second || (stallCPU > 0 && spin >= stallCPU) {
 					stalled = true
+					spinning = spin
 					cmd.Process.Signal(syscall.SIGQUIT)
 					time.Sleep(2 * time.Second)
 					cmd.Process.Kill()
@@ -377,12 +391,26 @@ func (r *Runner) runShard(filter string, shard, nsh int, cases map[int]Case, agg
 		}
 		c := cases[idx]
 		c.Sub = sub
-		if stalled {
+		switch {
+		case stalled && stallCPU > 0 && spinning >= stallCPU:
+			// decided on CPU time, not on the wall clock: the worker was computing all that time
+			// inside ONE journal entry (a workload that sets StallCPU bounds every call by far less)
+			stalled = false
+			v := Violation{Class: "budget:cpu-no-return", Case: c, Detail: fmt.Sprintf("the call did not return: the worker burned %.0f CPU-seconds inside this one case without finishing it (wall-clock watchdog %ds); %s", spinning, stall, firstLines(tail(stderrPath, 3000), 12))}
+			if ff, ok := r.W.(interface{ FatalFeatures(Case) []string }); ok {
+				v.Features = ff.FatalFeatures(c)
+			}
+			agg.mu.Lock()
+			agg.Viol = append(agg.Viol, v)
+			agg.Restarts++
+			agg.mu.Unlock()
+			noReturn++
+		case stalled:
 			stalls++
 			agg.mu.Lock()
-			agg.Inconclusive = append(agg.Inconclusive, fmt.Sprintf("watchdog: no progress for %ds in case %d sub %d", stall, idx, sub))
+			agg.Inconclusive = append(agg.Inconclusive, fmt.Sprintf("watchdog: no progress for %ds in case %d sub %d (%.0f CPU-seconds used)", stall, idx, sub, spinning))
 			agg.mu.Unlock()
-		} else {
+		default:
 			st := tail(stderrPath, 3000)
 			kind := fatalKind(st)
 			v := Violation{Class: kind, Case: c, Detail: "worker process died: " + firstLines(st, 12)}
@@ -405,6 +433,12 @@ func (r *Runner) runShard(filter string, shard, nsh int, cases map[int]Case, agg
 			agg.mu.Unlock()
 			return
 		}
+		if noReturn > 3 {
+			agg.mu.Lock()
+			agg.Inconclusive = append(agg.Inconclusive, fmt.Sprintf("shard %s/%d: %d calls did not return, remainder of the shard not run", filter, shard, noReturn))
+			agg.mu.Unlock()
+			return
+		}
 		if stalls > 1 {
 			agg.mu.Lock()
 			agg.Inconclusive = append(agg.Inconclusive, fmt.Sprintf("shard %s/%d: watchdog fired %d times, remainder of the shard not run", filter, shard, stalls))
@@ -424,6 +458,26 @@ func (r *Runner) runShard(filter string, shard, nsh int, cases map[int]Case, agg
 		// truncate files for the next incarnation
 		os.Remove(outPath)
 	}
+}
+
+// procCPU: CPU-seconds (user + system) a process has used so far, from /proc (0 if unreadable).
+func procCPU(pid int) float64 {
+	b, err := os.ReadFile(fmt.Sprintf("/proc/%d/stat", pid))
+	if err != nil {
+		return 0
+	}
+	// fields after the parenthesised command name: state is field 3, utime 14, stime 15
+	k := strings.LastIndexByte(string(b), ')')
+	if k < 0 {
+		return 0
+	}
+	f := strings.Fields(string(b[k+1:]))
+	if len(f) < 13 {
+		return 0
+	}
+	ut, _ := strconv.ParseFloat(f[11], 64)
+	st, _ := strconv.ParseFloat(f[12], 64)
+	return (ut + st) / 100
 }
 
 func firstLines(s string, n int) string {
@@ -478,7 +532,13 @@ func (r *Runner) replayChild(c Case, race bool) (*Result, string, error) {
 	os.WriteFile(cf, b, 0o644)
 	defer os.Remove(cf)
 	cmd := exec.Command(bin, "replaycase", r.Prop, cf)
-	cmd.Env = r.env(race)
+	jp := cf + ".journal"
+	defer os.Remove(jp)
+	cmd.Env = r.env(race, "VERIF_REPLAY_JOURNAL="+jp)
+	stallCPU := 0.0
+	if po, ok := r.W.(ProcOpts); ok {
+		stallCPU = po.ProcOpts().StallCPU
+	}
 	var out, errb bytes.Buffer
 	cmd.Stdout = &out
 	cmd.Stderr = &errb
@@ -487,12 +547,33 @@ func (r *Runner) replayChild(c Case, race bool) (*Result, string, error) {
 		return nil, "", err
 	}
 	go func() { done <- cmd.Wait() }()
-	select {
-	case <-done:
-	case <-time.After(15 * time.Minute):
-		cmd.Process.Kill()
-		<-done
-		return nil, "watchdog", fmt.Errorf("replay timed out")
+	deadline := time.After(15 * time.Minute)
+	var lastSize int64 = -1
+	cpuAtChange := 0.0
+wait:
+	for {
+		select {
+		case <-done:
+			break wait
+		case <-deadline:
+			cmd.Process.Kill()
+			<-done
+			return nil, "watchdog", fmt.Errorf("replay timed out")
+		case <-time.After(time.Second):
+			var sz int64
+			if st, err := os.Stat(jp); err == nil {
+				sz = st.Size()
+			}
+			cpu := procCPU(cmd.Process.Pid)
+			if sz != lastSize {
+				lastSize, cpuAtChange = sz, cpu
+			} else if stallCPU > 0 && cpu-cpuAtChange >= stallCPU {
+				// decided on CPU time: the child computed that long inside one journalled step
+				cmd.Process.Kill()
+				<-done
+				return nil, fmt.Sprintf("budget:cpu-no-return the call did not return: %.0f CPU-seconds inside one step without finishing it", cpu-cpuAtChange), nil
+			}
+		}
 	}
 	for _, line := range strings.Split(out.String(), "\n") {
 		if strings.HasPrefix(line, "REPLAY-RESULT ") {
@@ -541,13 +622,25 @@ func (r *Runner) Run() int {
 
 	// 1. known-finding witnesses
 	kfReproduced := map[string]int{}
+	type replayOutcome struct {
+		res  *Result
+		died string
+		err  error
+	}
+	replayed := map[string]replayOutcome{} // several findings may share one witness case: run it once
 	for _, f := range r.KF.For(r.Prop) {
 		w, err := r.KF.LoadWitness(f)
 		if err != nil {
 			fmt.Printf("ERROR cannot load witness of %s: %v\n", f.ID, err)
 			return 2
 		}
-		res, died, err := r.replayChild(w.Case, w.Case.HasOpt("race"))
+		ck, _ := json.Marshal(w.Case)
+		ro, seen := replayed[string(ck)]
+		if !seen {
+			ro.res, ro.died, ro.err = r.replayChild(w.Case, w.Case.HasOpt("race"))
+			replayed[string(ck)] = ro
+		}
+		res, died, err := ro.res, ro.died, ro.err
 		if err != nil {
 			agg.Inconclusive = append(agg.Inconclusive, "witness "+f.ID+": "+err.Error())
 			continue
